@@ -24,6 +24,8 @@ Repairs followed by the model (proposed_fixes/C02-1, C02-2):
 * C02-2 the BibTeXML reader detects person roles on the lower-cased tag (as the YAML reader does).
 -/
 import PybtexModel.Model.BibParse
+import PybtexModel.Model.UniCase
+import PybtexModel.Model.Errors
 
 namespace Pybtex.BibWrite
 open Pybtex.Bib
@@ -204,10 +206,11 @@ def encodeLatex (s : Str) : Str := encodeLatexAux false s
 /-! ### identifiers in lower case: `Entry.lower`, `BibliographyData.lower` -/
 
 /-- `OrderedCaseInsensitiveDict.__setitem__` on the item list: an existing key (up to case) keeps
-its position and takes the new spelling and value -/
+its position and takes the new spelling and value.  Keys are compared through `str.lower()`
+(`lowerU`, the Unicode lower-casing of `Model/UniCase.lean`). -/
 def ciSet {V : Type} : List (Str × V) → Str → V → List (Str × V)
   | [], k, v => [(k, v)]
-  | (k', v') :: r, k, v => if lower k' = lower k then (k, v) :: r else (k', v') :: ciSet r k v
+  | (k', v') :: r, k, v => if lowerU k' = lowerU k then (k, v) :: r else (k', v') :: ciSet r k v
 
 /-- `OrderedCaseInsensitiveDict(pairs)` for pairs with distinct keys (a generator of items) -/
 def ciOfPairs {V : Type} (ps : List (Str × V)) : List (Str × V) :=
@@ -215,14 +218,14 @@ def ciOfPairs {V : Type} (ps : List (Str × V)) : List (Str × V) :=
 
 /-- `Entry.lower`: `type(self)(self.type, fields=self.fields.lower(), persons=self.persons.lower())` -/
 def entryLower (e : Entry) : Entry :=
-  { key := e.key, type := lower e.type, origType := e.type,
-    fields := ciOfPairs (e.fields.map fun f => (lower f.1, f.2)),
-    persons := ciOfPairs (e.persons.map fun r => (lower r.1, r.2)) }
+  { key := e.key, type := lowerU e.type, origType := e.type,
+    fields := ciOfPairs (e.fields.map fun f => (lowerU f.1, f.2)),
+    persons := ciOfPairs (e.persons.map fun r => (lowerU r.1, r.2)) }
 
 /-- `BibliographyData.add_entry` without a wanted-set: a repeated key (up to case) is reported and
 the entry dropped; `entry.key` is set to the key -/
 def addEntryPlain (acc : List Entry × List Str) (key : Str) (e : Entry) : List Entry × List Str :=
-  if acc.1.any (fun x => lower x.key = lower key) then (acc.1, acc.2 ++ [key])
+  if acc.1.any (fun x => lowerU x.key = lowerU key) then (acc.1, acc.2 ++ [key])
   else (acc.1 ++ [{ e with key := key }], acc.2)
 
 /-- `add_entries` from an empty database: the entries and the repeated keys reported -/
@@ -232,7 +235,7 @@ def addEntries (es : List (Str × Entry)) : List Entry × List Str :=
 /-- `BibliographyData.lower`: the lower-cased database and the repeated keys reported (none when
 the keys are distinct up to case) -/
 def dbLower (d : BibData) : BibData × List Str :=
-  let r := addEntries (d.entries.map fun e => (lower e.key, entryLower e))
+  let r := addEntries (d.entries.map fun e => (lowerU e.key, entryLower e))
   ({ entries := r.1, preamble := d.preamble }, r.2)
 
 /-! ### YAML: `_to_dict` and `process_entry` over the value tree -/
@@ -323,6 +326,33 @@ def addPersonsY (role : Str) : List YNode → Entry → List Str → Except WErr
           (if rep then bad ++ [strip (kwArg kw "string")] else bad)
   | _ :: _, _, _ => .error .malformed
 
+mutual
+/-- `repr(value)` of a loaded YAML value inside a container: `repr` of a `str`, the text of another
+scalar (`repr` = `str` for `int`, `float`, `bool`, `None`), `[…]` of a list, `OrderedDict({…})`
+(CPython ≥ 3.12; `OrderedDict()` when empty) of a mapping -/
+def reprY : YNode → Str
+  | .str s => Errors.pyRepr s
+  | .other t => t
+  | .seq items => '[' :: reprSeqY items ++ [']']
+  | .map items =>
+    if items.isEmpty then "OrderedDict()".toList
+    else "OrderedDict({".toList ++ reprMapY items ++ "})".toList
+def reprSeqY : List YNode → Str
+  | [] => []
+  | x :: r => reprY x ++ (if r.isEmpty then [] else ", ".toList) ++ reprSeqY r
+def reprMapY : List (Str × YNode) → Str
+  | [] => []
+  | (k, v) :: r =>
+    Errors.pyRepr k ++ ": ".toList ++ reprY v ++ (if r.isEmpty then [] else ", ".toList) ++ reprMapY r
+end
+
+/-- `str(value)` of a loaded YAML value: a `str` is itself, another scalar its text; a list or a
+mapping prints as its `repr` -/
+def strY : YNode → Str
+  | .str s => s
+  | .other t => t
+  | v => reprY v
+
 /-- the item loop of the YAML `process_entry` -/
 def processItemsY : List (Str × YNode) → Entry → List Str → Except WErr (Entry × List Str)
   | [], e, bad => .ok (e, bad)
@@ -336,10 +366,9 @@ def processItemsY : List (Str × YNode) → Entry → List Str → Except WErr (
       | _ => .error .malformed
     else if lower k = "type".toList then processItemsY r e bad
     else
-      match v with
-      | .str s => processItemsY r { e with fields := ciSet e.fields k s } bad
-      | .other t => processItemsY r { e with fields := ciSet e.fields k t } bad      -- `str(value)`
-      | _ => .error .malformed   -- `str()` of a list / mapping: not modelled
+      -- `bib_entry.fields[key] = str(value)`: also for a list / mapping (e.g. the person list of a
+      -- role other than author / editor, which the reader takes for a plain field)
+      processItemsY r { e with fields := ciSet e.fields k (strY v) } bad
 
 /-- YAML `Parser.process_entry` -/
 def processEntryY (key : Str) (n : YNode) : Except WErr (Entry × List Str) :=
@@ -347,7 +376,7 @@ def processEntryY (key : Str) (n : YNode) : Except WErr (Entry × List Str) :=
   | .map items =>
     match odGet items "type".toList with
     | some (.str ty) =>
-      processItemsY items { key := key, type := lower ty, origType := ty, fields := [], persons := [] } []
+      processItemsY items { key := key, type := lowerU ty, origType := ty, fields := [], persons := [] } []
     | _ => .error .malformed
   | _ => .error .malformed
 
@@ -397,18 +426,27 @@ def XNode.text : XNode → Option Str | .elem _ _ t _ => t
 def XNode.children : XNode → List XNode | .elem _ _ _ c => c
 
 /-- the indentation text `_PrettyXMLWriter.start(…, newline=True)` leaves in front of the first
-child (abstracted to one newline: the reader only strips it) -/
+child of the `file` / `entry` / entry-type elements (abstracted to one newline: the reader never
+looks at the text of these three) -/
 def xmlWs : Option Str := some ['\n']
+
+/-- the text `_PrettyXMLWriter` leaves in front of the first child of an element whose children
+are at nesting depth `n` (`newline()` then `indent_line()` with `n` open elements: four blanks
+each).  Exact for role elements (`n = 4`) and person elements (`n = 5`): the reader takes the text
+of a role element it does not know for a field value. -/
+def xmlIndent (n : Nat) : Option Str := some ('\n' :: List.replicate (4 * n) ' ')
 
 /-- `writer.element(tag, data)`: empty data leaves no text node -/
 def elementX (tag data : Str) : XNode := .elem tag none (if data = [] then none else some data) []
 
+/-- a person without any name part has no child: the text is the indentation of its end tag -/
 def personNodeX (p : Person) : XNode :=
-  .elem "person".toList none xmlWs ((personParts p).map fun x => elementX x.1 x.2)
+  .elem "person".toList none (xmlIndent (if (personParts p).isEmpty then 4 else 5))
+    ((personParts p).map fun x => elementX x.1 x.2)
 
 /-- `write_persons`: nothing for an empty list -/
 def roleNodesX (r : Str × List Person) : List XNode :=
-  if r.2 = [] then [] else [.elem r.1 none xmlWs (r.2.map personNodeX)]
+  if r.2 = [] then [] else [.elem r.1 none (xmlIndent 4) (r.2.map personNodeX)]
 
 def entryNodeX (e : Entry) : XNode :=
   .elem "entry".toList (some e.key) xmlWs
@@ -480,7 +518,7 @@ def processEntryX (n : XNode) : Except WErr ((Str × Entry) × List Str) :=
   match n.id, n.children with
   | some key, item :: _ =>
     match processFieldsX item.children
-        { key := key, type := lower item.tag, origType := item.tag, fields := [], persons := [] } [] with
+        { key := key, type := lowerU item.tag, origType := item.tag, fields := [], persons := [] } [] with
     | .error e => .error e
     | .ok (e, bad) => .ok ((key, e), bad)
   | _, _ => .error .malformed
@@ -577,5 +615,72 @@ def chain (S : Serial) (preserveCase : Bool) : List Fmt → BibData → Except W
     match roundTrip S f d with
     | .error e => .error e
     | .ok d' => chainFrom S preserveCase fs d'
+
+/-! ### `Entry.__repr__` / `eval`: the constructor call -/
+
+/-- the constructor call `Entry.__repr__` prints (after repair C02-4): `Entry(original_type,
+fields=[(name, value), …], persons={role: [Person(str(p)), …], …})` — the argument values, with
+Python's `repr` / `eval` of `str`, `list`, `tuple`, `dict` taken to be lossless -/
+structure EntryCall where
+  ty : Str
+  fields : List (Str × Str)
+  persons : List (Str × List Str)
+deriving Repr, DecidableEq
+
+/-- `Entry.__repr__`; `Person.__repr__` is `'Person({!r})'.format(str(self))` -/
+def entryRepr (e : Entry) : EntryCall :=
+  { ty := e.origType, fields := e.fields, persons := e.persons.map fun r => (r.1, r.2.map personStr) }
+
+/-- `[Person(s) for s in names]` (capture mode: an invalid name is reported, not raised) -/
+def evalPersons : List Str → Except WErr (List Person)
+  | [] => .ok []
+  | s :: r =>
+    match mkPerson s [] [] [] [] [] with
+    | .error _ => .error .nameTooDeep
+    | .ok (p, _) =>
+      match evalPersons r with
+      | .error e => .error e
+      | .ok ps => .ok (p :: ps)
+
+def evalRoles : List (Str × List Str) → Except WErr (List (Str × List Person))
+  | [] => .ok []
+  | (role, names) :: r =>
+    match evalPersons names with
+    | .error e => .error e
+    | .ok ps =>
+      match evalRoles r with
+      | .error e => .error e
+      | .ok rs => .ok ((role, ps) :: rs)
+
+/-- evaluating the call: `Entry.__init__` lower-cases the type and builds the two case-insensitive
+ordered dictionaries from the pairs (the entry is stored under `key` by the enclosing
+`BibliographyData([(key, Entry(…)), …])`) -/
+def entryEval (key : Str) (c : EntryCall) : Except WErr Entry :=
+  match evalRoles c.persons with
+  | .error e => .error e
+  | .ok rs => .ok { key := key, type := lowerU c.ty, origType := c.ty, fields := ciOfPairs c.fields,
+                    persons := ciOfPairs rs }
+
+/-- `BibliographyData.__repr__`: `BibliographyData(entries=OrderedCaseInsensitiveDict([(key,
+Entry(…)), …]), preamble=[…])` -/
+def dbRepr (d : BibData) : List (Str × EntryCall) × List Str :=
+  (d.entries.map fun e => (e.key, entryRepr e), d.preamble)
+
+def evalEntries : List (Str × EntryCall) → Except WErr (List (Str × Entry))
+  | [] => .ok []
+  | (k, c) :: r =>
+    match entryEval k c with
+    | .error e => .error e
+    | .ok e =>
+      match evalEntries r with
+      | .error err => .error err
+      | .ok es => .ok ((k, e) :: es)
+
+/-- evaluating it: the entries are added one by one (`add_entry`: a repeated key is reported), the
+preamble list is taken as it is -/
+def dbEval (c : List (Str × EntryCall) × List Str) : Except WErr (BibData × List Str) :=
+  match evalEntries c.1 with
+  | .error e => .error e
+  | .ok es => let r := addEntries es; .ok ({ entries := r.1, preamble := c.2 }, r.2)
 
 end Pybtex.BibWrite
